@@ -300,8 +300,9 @@ void target(FuzzedDataProvider& f) {
       Paths64 pp = d.paths(3, 10);
       Paths64 u = Union(pp, (FillRule)f.ConsumeIntegralInRange<int>(0, 3));
       checkClosed(u);
-      Paths64 i = InflatePaths(pp, f.ConsumeFloatingPointInRange<double>(-50.0, 50.0), (JoinType)f.ConsumeIntegralInRange<int>(0, 3), (EndType)f.ConsumeIntegralInRange<int>(0, 4));
-      checkClosed(i);
+      double dl = f.ConsumeFloatingPointInRange<double>(-50.0, 50.0);
+      Paths64 i = InflatePaths(pp, dl, (JoinType)f.ConsumeIntegralInRange<int>(0, 3), (EndType)f.ConsumeIntegralInRange<int>(0, 4));
+      if (dl != 0) checkClosed(i);   // InflatePaths(paths, 0, ...) hands the input back unchanged by definition
       g_nontrivial = !u.empty() || !i.empty();
     }
   }
